@@ -9,6 +9,10 @@ only = sys.argv[1:]
 if only:
     muts = [m for m in muts if m in only]
 os.makedirs("/tmp/wtm", exist_ok=True)
+# run from a snapshot of /verif so that the checks stay fixed while the matrix runs (the working copy may be edited meanwhile)
+SNAP = "/tmp/wtm/verif_snapshot"
+shutil.rmtree(SNAP, ignore_errors=True)
+shutil.copytree(V, SNAP, ignore=shutil.ignore_patterns(".git", "replays", "seeded_staging", "__pycache__", "evidence"))
 
 def prep(m):
     wt = f"/tmp/wtm/{m}"
@@ -24,7 +28,7 @@ def run(args):
     m, p, wt = args
     env = dict(os.environ, PYVC_REPO=wt, PYVC_EVIDENCE_DIR=f"/tmp/wtm/ev_{m}", PYVC_REPLAY_DIR=f"/tmp/wtm/rp_{m}")
     os.makedirs(env["PYVC_EVIDENCE_DIR"], exist_ok=True)
-    r = subprocess.run(["python3-vt", "-m", "pyvc", "check", p], cwd=V, env=env, capture_output=True, text=True, timeout=1800)
+    r = subprocess.run(["python3-vt", "-m", "pyvc", "check", p], cwd=SNAP, env=env, capture_output=True, text=True, timeout=1800)
     viol = [l.split("replay=")[1].split("/")[-1].replace(".json", "").split(" ")[0] for l in r.stdout.splitlines() if l.startswith("VIOLATION")]
     return m, p, r.returncode, viol
 
@@ -48,6 +52,7 @@ for m, wt in wts.items():
         subprocess.run(["git", "-C", "/repo", "worktree", "remove", "--force", wt], capture_output=True)
     for d in (f"/tmp/wtm/ev_{m}", f"/tmp/wtm/rp_{m}"):
         shutil.rmtree(d, ignore_errors=True)
+shutil.rmtree(SNAP, ignore_errors=True)
 old = json.load(open(f"{V}/seeded/matrix.json")) if os.path.exists(f"{V}/seeded/matrix.json") and only else {}
 for m_, r_ in res.items():
     old.setdefault(m_, {}).update(r_)
